@@ -202,61 +202,122 @@ _x `it's` , int32 body ,
     // trailing space 
     } root	packet body{  }
 ")).
-Eval vm_compute in ("<<<M1661>>>" ++ check (runes_of_ascii "options {
-    FixedStringPadFromLeft = true;
-    FixedStringPadChar = '0';
-}
+Eval vm_compute in ("<<<M1627>>>" ++ check (runes_of_ascii "
+options
+{
+StringPrefixLenType	=u64
 
-packet Leg {
-    InPrice0 {
-        repeat string clOrdID,
-        int16 msgKind,
-        zchar[5] Px,
-    },
-    i16 f1,
-    repeat f64 Side2,
-    string Acct,
-}
+    ; ArrayPrefixLenType
 
-packet Cancel {
-    zchar[4] clOrdID,
-    string seqNo,
-    Leg,
-    @leftPad('0')
-    char[11] OrderId,
-}
+    = u32
 
-packet Quote {
-    repeat char[4] sym,
-    f64 OrderId,
-    repeat Leg,
-    repeat i64 f1,
-    int16 Note,
-    zchar[3] count,
-}
+;FixedStringPadFromLeft=
+false ; }
 
-root packet Ack {
-    @leftPad(' ')
-    char[10] sym,
-    InPx60 {
-        Cancel,
-        repeat char[1] f1,
-        string Tail,
-        repeat InNote55 {
-            int8 count,
-            f64 f1,
-            repeat Cancel,
-        },
-        char[] tag7,
-        repeat string msgKind,
-    },
-    u8 lastPx,
-    match lastPx as Body {
-        152 : Quote,
-        173 : Cancel,
-        4 : Leg,
-    },
-    u16 Ref @calculatedFrom(""CRC32""),
+    packet
+Party{
+zchar[
+
+7
+
+    ] OrderId
+, InTail6
+{	repeat
+char[  1
+    ]
+
+    msgKind
+	, char[
+
+    3 ]
+Tail , 
+char[3
+]Flags
+, 
+i16
+
+    tag7
+	, }
+, @rightPad
+
+( '0'
+
+    ) char[  12 ] 
+clOrdID
+	,  }
+packet
+
+    Quote
+
+    {
+
+@leftPad	(	'0' ) 
+char[ 
+11  ]
+
+price
+
+    , repeat InCount7 {	i32
+	x, Party ,u8 Ref ,
+	u8
+
+tag7
+	,
+}	, char[]
+    seqNo,
+Party,  }
+packet
+
+Logon {
+@rightPad  (
+'\x00')
+char[
+    5 ] 
+Note
+	, i16 
+sym , InPrice72 { 
+char[
+
+    9 ]
+Ref , zchar[
+
+    1  ]	venue, }
+
+    ,char[] 
+clOrdID , }
+	root
+	packet
+
+    Reject
+    {
+
+repeat	Logon 
+,
+    @leftPad
+
+    (	' ' )
+char[4 ]
+	seqNo ,
+    zchar[
+	5	]
+
+Acct,
+
+    u32 x , u16 f1
+    @lengthOf(	Body )	, match
+x as Body
+    {
+[
+    169 ,	74] : Quote
+	,
+    45 
+: 
+Party	, 
+7
+:	Logon
+,
+
+} ,
 }")).
 Eval vm_compute in ("<<<M1878>>>" ++ check (runes_of_ascii "packet o {
     repeat pack stringy `two words`,
@@ -509,30 +570,38 @@ Reject
 
     , }
 ")).
-Eval vm_compute in ("<<<M1520>>>" ++ check (runes_of_ascii "packet Logon {
-    repeatCount {
-        BodyLength `crlf
-                line`,
+Eval vm_compute in ("<<<M1637>>>" ++ check (runes_of_ascii "MetaData u128 {
+    zchar[3] matchKey `crlf
+        line`,
+}
+
+// packet A { u8 x, }
+options {
+}
+
+root packet rootA {
+    @calculatedFrom(""{,}"")
+    repeat u16 len,
+    repeat body,
+    i8i8 @lengthOf(packetx),
+    metadata int `line1
+        line2`,
+    uint8x `two words`,
+    int16 x_y_z,
+    repeatCount,
+    Logon {
+        repeat i8 Packet `line1
+                line2`,
     },
-    zchar a1 `u8 x,`,
-    match Foo as Foo {
-        ""\n"" : i8i8,
-        [
-            ""abc"",
-            ""CRC32""
-        ] : crc,
-        [
-            3, 42, 1, 255, ""x y"",
-            ""`tick`"", ""a\""b"", ""CRC32""
-        ] : repeatCount,
-        [
-            1, 007, 007, 7, 255,
-            ""\n"", ""// no comment""
-        ] : uint8x,
-        00 : f32a,
-    },
-    // a // b
-    uint16 Pad @lengthOf(uint8x) `doc`,
+}
+
+options {
+    // " ++ [128512]%N ++ runes_of_ascii " emoji
+    lengthOf = ' ';
+    i64_ = ""{,}"";
+    msg_type = '0';
+    u = i32;
+    _x = ""abc"";
 }")).
 Eval vm_compute in ("<<<M1789>>>" ++ check (runes_of_ascii "options
 {	LittleEndian 
@@ -680,22 +749,30 @@ metadata
 4294967296  ;Packet
 	=  '0'	;
 	}")).
-Eval vm_compute in ("<<<M262>>>" ++ check (runes_of_ascii "  packet  Logon
-    { o Header ,	Header
-, @lengthOf(
-u )	char[ 255 ] tag `tab	here`, char[]falsey ,
-    @lengthOf(	zchar )
-    @rightPad (
-) float roots// @lengthOf(
-,
-@calculatedFrom(	""// no comment"") i64
-u8x,
-} options { metadata = '0' ;_x = 4294967296 ; Packet
-    =
-    '0'
-;
-    }
-
+Eval vm_compute in ("<<<M1308>>>" ++ check (runes_of_ascii "packet A {
+    u8 a,
+}
+packet B {
+    u16 b,
+}
+packet C {
+    u32 c,
+}
+root packet M {
+    u16 Kc, u16 Kb, u16 Ka,
+    match Kc as X {
+        9 : A,
+        10 : B,
+    },
+    match Kb as Y {
+        2 : C,
+        1 : A,
+    },
+    match Ka as Z {
+        1 : B,
+    },
+    A, B, C,
+}
 ")).
 Eval vm_compute in ("<<<M1884>>>" ++ check (runes_of_ascii "packet i8i8
 {
